@@ -167,3 +167,43 @@ package binary
 //@   after labels.(*Builder).Set set handled = handled + 1
 //@   after labels.(*Builder).Del set handled = handled + 1
 //@   loop 0 invariant[C05] every-included-label-is-handled: handled == rangeindex + 1 && lb != nil
+
+// ---- vector.go: vectorOperator.Next (C05, C15, C18) -----------------------------------------------
+// The two operands are paired step by step (vector i of the left batch with vector i of the right
+// batch); every paired step yields one output vector, or the query fails with the many-to-many error
+// of that step; errors of either operand surface.
+// Assumed: the join index built by initOutputs (goroutine, maps - outside the subset) fits the
+// operands' series lists; siblings deliver the same steps (C18) and step times increase from batch to
+// batch (so that the table's tags are older than every new step).
+//@ func (*vectorOperator).initOutputs
+//@   trusted builds the join index with a goroutine and maps (outside the subset); assumed to fit the operands' series lists
+//@   requires o != nil && ctx != nil
+//@   panics may
+//@   assigns binary.vectorOperator.series, binary.vectorOperator.table, binary.vectorOperator.outputCache, binary.vectorOperator.lhSampleIDs, binary.vectorOperator.rhSampleIDs, model.VectorPool.stepSize
+//@   ensures result == nil ==> vopInv(o)
+//@ pred vopInv(o) = o.table != nil && tblInv(o.table) && len(o.lhSampleIDs) == o.lhs.nSeries && len(o.rhSampleIDs) == o.rhs.nSeries &&
+//@     (o.table.card == parser.CardOneToMany ==> o.table.lowCardOutputIndex.nIn == o.lhs.nSeries && o.table.highCardOutputIndex.nIn == o.rhs.nSeries) &&
+//@     (o.table.card != parser.CardOneToMany ==> o.table.highCardOutputIndex.nIn == o.lhs.nSeries && o.table.lowCardOutputIndex.nIn == o.rhs.nSeries)
+//@ func (*vectorOperator).Next
+//@   requires ctx != nil && o != nil && o.lhs != nil && o.rhs != nil && o.pool != nil && o.matching != nil
+//@   requires join-index-built-once: o.once != 0 ==> vopInv(o)
+//@   panics may
+//@   ensures[C18] error-means-no-batch: result1 != nil ==> isnil(result0)
+//@   ensures[C15] left-operand-error-surfaces: ncalls("model.VectorOperator.Next") >= 1 && callres("model.VectorOperator.Next", 1, 1) != nil ==> result1 != nil
+//@   ensures[C15] right-operand-error-surfaces: ncalls("model.VectorOperator.Next") >= 2 && callres("model.VectorOperator.Next", 2, 1) != nil ==> result1 != nil
+//@   ensures[C05,C07,C18] one-output-vector-per-paired-step: result1 == nil && !isnil(result0) ==> len(result0) == imin(len(callres("model.VectorOperator.Next", 1, 0)), len(callres("model.VectorOperator.Next", 2, 0)))
+//@   at line "batch := o.pool.GetVectorBatch()" assume sibling-lockstep: forall k in 0..imin(len(lhs), len(rhs)) :: lhs[k].T == rhs[k].T && lhs[k].T >= 0
+//@   at line "step, err := o.table.execBinaryOperation(lhs[i], rhs[i], o.returnBool)" assume steps-increase-across-batches: forall j in 0..len(o.table.outputValues) :: o.table.outputValues[j].lhT < lhs[i].T && o.table.outputValues[j].rhT < lhs[i].T
+//@   at binary.(*table).execBinaryOperation assert[C05] operands-paired-by-step: $lhs.T == lhs[i].T && sameslice($lhs.Samples, lhs[i].Samples) && sameslice($lhs.SampleIDs, lhs[i].SampleIDs) &&
+//@       $rhs.T == rhs[i].T && sameslice($rhs.Samples, rhs[i].Samples) && sameslice($rhs.SampleIDs, rhs[i].SampleIDs) && $returnBool == o.returnBool
+//@   at line "return nil, errors.Newf(msg, group, err.side, sampleID.String(), duplicateSampleID.String())" assert[C05] ambiguous-step-fails-the-query: err != nil
+//@   mayfail line "sampleID = o.lhSampleIDs[err.sampleID]"
+//@   mayfail line "duplicateSampleID = o.lhSampleIDs[err.duplicateSampleID]"
+//@   mayfail line "sampleID = o.rhSampleIDs[err.sampleID]"
+//@   mayfail line "duplicateSampleID = o.rhSampleIDs[err.duplicateSampleID]"
+//@   loop 0 invariant op: o != nil && o.lhs != nil && o.rhs != nil && o.pool != nil && o.matching != nil && vopInv(o)
+//@   loop 0 invariant batch-so-far: !isnil(batch) && fresh(batch) && len(batch) == imin(rangeindex + 1, len(rhs)) && ref(batch) != ref(lhs) && ref(batch) != ref(rhs) && allocated(lhs) && allocated(rhs)
+//@   loop 0 invariant operands: sameslice(lhs, callres("model.VectorOperator.Next", 1, 0)) && sameslice(rhs, callres("model.VectorOperator.Next", 2, 0)) &&
+//@       (forall k in 0..imin(len(lhs), len(rhs)) :: lhs[k].T == rhs[k].T && lhs[k].T >= 0)
+//@   loop 0 invariant left-ids: forall k in 0..len(lhs) :: len(lhs[k].SampleIDs) == len(lhs[k].Samples) && (forall j in 0..len(lhs[k].SampleIDs) :: lhs[k].SampleIDs[j] < o.lhs.nSeries)
+//@   loop 0 invariant right-ids: forall k in 0..len(rhs) :: len(rhs[k].SampleIDs) == len(rhs[k].Samples) && (forall j in 0..len(rhs[k].SampleIDs) :: rhs[k].SampleIDs[j] < o.rhs.nSeries)
